@@ -138,6 +138,63 @@ func c16(c *Ctx) {
 					}
 				}
 			})
+			// while waiting to reconnect, the cancellation of a stream that is being held is watched: on the
+			// "stream != nil" side of the test before the select, the channel the select receives from is
+			// that stream's own Ctx.Done()
+			okWatch := false
+			eachInstr(run, func(in ssa.Instruction) {
+				ifi, ok := in.(*ssa.If)
+				if !ok {
+					return
+				}
+				b := asBinOp(ifi.Cond, token.EQL, token.NEQ)
+				if b == nil || !isNilConst(b.Y) {
+					return
+				}
+				ld, ok := b.X.(*ssa.UnOp)
+				if !ok || ld.X != ssa.Value(streamAlloc) {
+					return
+				}
+				held := ifi.Block().Succs[1]
+				if b.Op == token.NEQ {
+					held = ifi.Block().Succs[0]
+				}
+				// a Done() of the held stream computed on that side ...
+				var done ssa.Value
+				eachInstr(run, func(in2 ssa.Instruction) {
+					cl, ok := in2.(*ssa.Call)
+					if !ok || !cl.Call.IsInvoke() || cl.Call.Method.Name() != "Done" {
+						return
+					}
+					if !(in2.Block() == held || held.Dominates(in2.Block())) {
+						return
+					}
+					if strings.HasSuffix(pathOf(cl.Call.Value), "stream.Ctx") {
+						done = cl
+					}
+				})
+				if done == nil {
+					return
+				}
+				// ... is what a select in the loop receives from
+				eachInstr(run, func(in2 ssa.Instruction) {
+					sel, ok := in2.(*ssa.Select)
+					if !ok {
+						return
+					}
+					for _, st := range sel.States {
+						if st.Send != nil {
+							continue
+						}
+						for _, vc := range valueCases(st.Chan, nil) {
+							if vc.V == done {
+								okWatch = true
+							}
+						}
+					}
+				})
+			})
+			r.Check("Run:held-stream-cancellation-watched", okWatch, run.Pos(), "while reconnecting, a held stream's Ctx.Done() is one of the channels waited on (a carried-over stream can still be cancelled)")
 			// the deferred function completes a held stream
 			okDefer := false
 			for _, g := range WithAnon(run)[1:] {
